@@ -90,6 +90,13 @@ def run(tier):
     runs, _ = vlib.validate_runs(rep, "LinTrace", "LinTrace", hb, wd, "bigbatch", describe="not linearizable: {what}", strip=())
     account(runs)
     os.remove(hb)
+    # the TTL manager's sweep (evict_expired_all_shards) in flight together with one client write to a key whose TTL has
+    # lapsed, every entry path, every polling order on a single-threaded runtime; an acknowledged write must be read afterwards
+    hw = os.path.join(wd, "sweep.ndjson")
+    vlib.vh(["lin", "sweep", "--out", hw])
+    runs, _ = vlib.validate_runs(rep, "LinTrace", "LinTrace", hw, wd, "sweep", describe="not linearizable: {what}", strip=())
+    account(runs)
+    os.remove(hw)
     # the same through real connection handlers (duplex streams), pipelines of 1-4 commands
     nc = 20000 if thorough else 1500
     for i in range(0, nc, 5000):
